@@ -35,8 +35,10 @@ var spellings = map[string][]string{
 	"/c":      {"/c", "C", " /c ", "//c"},
 	// letters outside ASCII have cases too
 	"/cam/éö": {"/cam/éö", "/cam/ÉÖ", "/CAM/éÖ", "cam/Éö"},
+	// the root path is a path like any other (ANNOUNCE rtsp://host:554/)
+	"/": {"/", "", " ", "//", "/."},
 }
-var canonPaths = []string{"/live/a", "/live/b", "/c", "/cam/éö"}
+var canonPaths = []string{"/live/a", "/live/b", "/c", "/cam/éö", "/"}
 
 // model -----------------------------------------------------------------------
 
@@ -157,7 +159,7 @@ func TestRegistryHistories(t *testing.T) {
 		media.UnregistAll()
 		m := &model{registry: map[string]*mstream{}}
 		var hist []op
-		replacedOver, unregOld, idleFlvOnly := false, false, false
+		replacedOver, unregOld, idleFlvOnly, idleRetiredAlone := false, false, false, false
 		retired := map[*mstream]bool{}
 		defer func() {
 			for _, st := range m.streams {
@@ -237,7 +239,11 @@ func TestRegistryHistories(t *testing.T) {
 				st.s.Close()
 				m.closeStream(st)
 			case k == 5 || k == 6: // one idle-close decision
-				st := prefer("idleWho", flvOnlyAudience)
+				st := prefer("idleWho", func(st *mstream) bool {
+					// interesting for the idle decision: an FLV-only audience, or a retired stream
+					// (replaced, still open) that nobody watches any more
+					return flvOnlyAudience(st) || (retired[st] && !st.closed && len(st.consumers) == 0)
+				})
 				long := rapid.Bool().Draw(t, "longPeriod")
 				repl := rapid.Bool().Draw(t, "asReplaced")
 				hist = append(hist, op{Op: "idle-tick", Stream: st.id, Long: long, Repl: repl})
@@ -251,6 +257,9 @@ func TestRegistryHistories(t *testing.T) {
 				}
 				media.VerifIdleCloseTick(st.s, d, status)
 				if !st.closed {
+					if retired[st] && len(st.consumers) == 0 && m.registry[st.path] == nil {
+						idleRetiredAlone = true
+					}
 					flvOnly := len(st.consumers) > 0
 					for _, c := range st.consumers {
 						if !c.flv {
@@ -281,7 +290,7 @@ func TestRegistryHistories(t *testing.T) {
 				hist = append(hist, op{Op: "attach", Stream: st.id, Cons: nextCons, FLV: flv})
 				nextCons++
 			default: // detach
-				st := pickStream("detachWho")
+				st := prefer("detachWho", func(st *mstream) bool { return retired[st] && !st.closed && len(st.consumers) > 0 })
 				for id, c := range st.consumers {
 					st.s.StopConsume(c.cid)
 					delete(st.consumers, id)
@@ -300,7 +309,10 @@ func TestRegistryHistories(t *testing.T) {
 		if idleFlvOnly {
 			evid.Class("idle decision with an FLV-only audience")
 		}
-		if (replacedOver && unregOld) || idleFlvOnly {
+		if idleRetiredAlone {
+			evid.Class("idle decision on a retired stream whose successor is gone and whose consumers left")
+		}
+		if (replacedOver && unregOld) || idleFlvOnly || idleRetiredAlone {
 			evid.Nontrivial(evid.FP(fmt.Sprint(hist)))
 			evid.Sample("history", hist)
 		}
@@ -461,4 +473,95 @@ func TestCloseRacingRegistStress(t *testing.T) {
 	}
 	evid.ClassN("stress: close / idle close / unregister racing the successor's Regist", int64(rounds))
 	evid.NontrivialN(int64(rounds) / 7 * 6) // rounds differ by (path, how) and by the schedule the runtime gave them; counted conservatively
+}
+
+// The life of a retired stream: replaced while it still has consumers, it keeps
+// serving them; its successor may leave in the meantime; when its last consumer
+// has left, the next idle decision closes it (whatever happened to the
+// successor), and never before. Generated: consumer kinds, the way and the
+// moment the successor leaves, the order of detaches and decisions.
+func TestRetiredStreamLifecycle(t *testing.T) {
+	evid.Checks(400, 6000)
+	config.VerifSet(":0", false, false, "", 5)
+	rapid.Check(t, func(t *rapid.T) {
+		media.UnregistAll()
+		defer media.UnregistAll()
+		evid.Eval(1)
+		cp := rapid.SampledFrom(canonPaths).Draw(t, "path")
+		sp := func() string { return rapid.SampledFrom(spellings[cp]).Draw(t, "spelling") }
+		h265 := rapid.Bool().Draw(t, "h265")
+		old := newStream(sp(), h265, !h265 && rapid.Bool().Draw(t, "audio"))
+		defer old.Close()
+		media.Regist(old)
+		n := rapid.IntRange(1, 3).Draw(t, "consumers")
+		var cids []media.CID
+		for i := 0; i < n; i++ {
+			pt := media.RTPPacket
+			if rapid.IntRange(0, 2).Draw(t, "flv") == 0 {
+				pt = media.FLVPacket
+			}
+			cids = append(cids, old.StartConsume(mediah.NewRec("life"), pt, "life"))
+		}
+		succ := newStream(sp(), true, false)
+		defer succ.Close()
+		media.Regist(succ) // old is retired, still open
+		var hist []string
+		fail := func(check, format string, a ...any) {
+			evid.Violation(t, check, map[string]any{"path": cp, "consumers": n, "history": hist}, format, a...)
+		}
+		if media.VerifStatus(old) != media.StreamOK {
+			fail("retired-closed-early", "a replaced stream with %d consumers was closed at once", n)
+		}
+		succLeaves := rapid.SampledFrom([]string{"never", "unregist", "close", "idle"}).Draw(t, "successorLeaves")
+		leaveAfter := rapid.IntRange(0, n).Draw(t, "successorLeavesAfterDetaches")
+		succGone := false
+		leave := func() {
+			switch succLeaves {
+			case "unregist":
+				media.Unregist(succ)
+			case "close":
+				succ.Close()
+			case "idle":
+				media.VerifIdleCloseTick(succ, time.Nanosecond, media.StreamNoConsumer)
+			default:
+				return
+			}
+			succGone = true
+			hist = append(hist, "successor leaves by "+succLeaves)
+		}
+		for i := 0; i <= n; i++ {
+			if i == leaveAfter {
+				leave()
+			}
+			// an idle decision now: consumers of old left so far = i
+			if rapid.Bool().Draw(t, "tick") || i == n {
+				hist = append(hist, fmt.Sprintf("idle decision on the retired stream with %d consumers left", n-i))
+				media.VerifIdleCloseTick(old, time.Nanosecond, media.StreamReplaced)
+				open := media.VerifStatus(old) == media.StreamOK
+				if i < n && !open {
+					fail("retired-closed-with-consumers", "the retired stream was closed by an idle decision while %d consumers were attached", n-i)
+				}
+				if i == n && open {
+					fail("retired-never-closed", "the retired stream has no consumer left, yet the idle decision did not close it (successor gone=%v)", succGone)
+				}
+			}
+			if i < n {
+				old.StopConsume(cids[i])
+				hist = append(hist, "consumer detaches")
+			}
+			got := media.Get(cp)
+			if succGone && got != nil {
+				fail("lookup", "the successor left, yet lookup returns a stream")
+			}
+			if !succGone && got != succ {
+				fail("lookup", "lookup does not return the successor")
+			}
+		}
+		if succGone {
+			evid.Class("retired stream outlives its successor (" + succLeaves + ")")
+		} else {
+			evid.Class("retired stream closed while its successor is live")
+		}
+		evid.Nontrivial(evid.FP("life", cp, n, succLeaves, leaveAfter, h265))
+	})
 }
